@@ -55,32 +55,19 @@ def check(ctx):
     if not m:
         raise AnalysisError("enum ss_t not found in dssp.cpp")
     enum = [x.strip() for x in m.group(1).replace("\n", " ").split(",") if x.strip()]
-    sw = [n for n in C.walk(fn) if n["kind"] == "SwitchStmt"]
-    if not sw:
-        ctx.undecided("C15-R1", C.line(fn), DC, "dssp", "switch", "no switch statement found (if/else chain?)")
-        cases = {}
+    # the character written for residue j of frame i, for every state of ss_t, by value numbering of the frame-loop body (a switch in place, a helper
+    # function, a table: whatever form it has)
+    fb = dssp_frame_by_value(ctx, cf)
+    if fb["error"]:
+        ctx.undecided("C15-R1", C.line(fn), DC, "dssp", "state -> character", fb["error"])
     else:
-        cases = {}
-        for c in C.walk(sw[0]):
-            if c["kind"] == "CaseStmt":
-                ks = C.kids(c)
-                label = C.text(ks[0])
-                # the assigned character
-                ch = None
-                for a in C.walk(c):
-                    if a["kind"] == "BinaryOperator" and a.get("opcode") == "=" and C.ref_name(C.kids(a)[0]) == "ss":
-                        lit = C.strip(C.kids(a)[1])
-                        if lit.get("kind") == "CharacterLiteral":
-                            ch = chr(lit.get("value"))
-                        break
-                cases[label] = ch
-        has_default = any(c["kind"] == "DefaultStmt" for c in C.walk(sw[0]))
-        ctx.decide(set(cases) == set(enum), "C15-R1", C.line(sw[0]), DC, "dssp", "switch covers every ss_t state", str(sorted(cases)),
-                   "states without a case: %s; cases without a state: %s" % (sorted(set(enum) - set(cases)), sorted(set(cases) - set(enum))))
+        cases = fb["codes"]
+        ctx.decide(set(cases) == set(enum) and None not in cases.values(), "C15-R1", C.line(fn), DC, "dssp", "every ss_t state is written as one character", str(sorted(cases)),
+                   "states for which no single character is written: %s" % sorted(k_ for k_, v_ in cases.items() if v_ is None))
         chars = [v for v in cases.values()]
-        ctx.decide(len(set(chars)) == len(chars) and None not in chars, "C15-R1", C.line(sw[0]), DC, "dssp", "switch is injective", str(cases), "two states map to the same character: %s" % cases)
+        ctx.decide(len(set(chars)) == len(chars) and None not in chars, "C15-R1", C.line(fn), DC, "dssp", "switch is injective", str(cases), "two states map to the same character: %s" % cases)
         for ch, state in DOC_CODES.items():
-            ctx.decide(cases.get(state) == ch, "C15-R1", C.line(sw[0]), DC, "dssp", "state %s -> %r" % (state, ch), "", "state %s is printed as %r, documented code is %r" % (state, cases.get(state), ch))
+            ctx.decide(cases.get(state) == ch, "C15-R1", C.line(fn), DC, "dssp", "state %s -> %r" % (state, ch), "", "state %s is printed as %r, documented code is %r" % (state, cases.get(state), ch))
     init = [n for n in C.walk(fn) if n["kind"] == "VarDecl" and n.get("name") == "framesecondary"]
     ok = bool(init) and "SS_LOOP" in C.text(C.kids(init[0])[-1])
     ctx.decide(ok, "C15-R1", C.line(init[0]) if init else C.line(fn), DC, "dssp", "default state is SS_LOOP", "", "per-frame assignment does not start from SS_LOOP")
@@ -375,3 +362,69 @@ def _r1_python_by_evaluation(ctx):
         dt = (rec.get("dtype") or "").replace('"', "'")
         m = re.search(r"U(\d+)", dt)
         ctx.decide(bool(m) and int(m.group(1)) >= 2, "C15-R1", cd, DP, q, desc + ": element type can hold 'NA' (%s)" % dt, "", "the characters are collected with dtype %s, which cannot hold the two-character code 'NA'" % (dt or None))
+
+
+def dssp_frame_by_value(ctx, cf):
+    """The body of dssp()'s frame loop by value numbering (sa/symval.py) for a symbolic frame i and residue j, once per state of ss_t put into
+    framesecondary[j]: -> dict(codes={state: character written, or None}, offsets={state: offset into `secondary`}, frame_ptrs=[pointer handed to the
+    per-frame kernels], error=None | text).  The three per-frame kernels are summarised as calls that return nothing."""
+    from ..symval import SymExec, State, Ptr, Unsupported as CUnsup
+    from ..poly import Poly, Rat
+    import os
+    fn = cf.function(DC, "dssp")
+    txt = open(os.path.join(ctx.repo, DC), errors="replace").read()
+    m = re.search(r"enum\s+ss_t\s*\{([^}]*)\}", txt)
+    if not m:
+        raise AnalysisError("enum ss_t not found in dssp.cpp")
+    enum = [x.strip().split("=")[0].strip() for x in m.group(1).replace("\n", " ").split(",") if x.strip()]
+    loops = [n for n in C.walk(C.body_of(fn)) if n["kind"] == "ForStmt" and len(C.kids(n)) > 1 and "n_frames" in C.text(C.kids(n)[1])]
+    if not loops:
+        raise AnalysisError("dssp(): frame loop not found")
+    body = [x for x in loops[0]["inner"] if isinstance(x, dict) and x.get("kind") == "CompoundStmt"]
+    if not body:
+        raise AnalysisError("dssp(): the frame loop has no compound body")
+    ivar = None
+    init = C.kids(loops[0])[0]
+    if init.get("kind") == "DeclStmt":
+        ivar = C.kids(init)[0].get("name")
+    out = dict(codes={}, offsets={}, frame_ptrs=[], error=None, enum=enum, loop=loops[0], ivar=ivar)
+    seen_ptrs = []
+
+    def model(name, args, n, st, ex):
+        if name in ("kabsch_sander", "calculate_beta_sheets", "calculate_alpha_helices"):
+            if args and isinstance(args[0], Ptr) and name != "calculate_beta_sheets":
+                seen_ptrs.append((name, args[0]))
+            return Rat(Poly.const(0))
+        if name in ("resize", "assign", "clear", "push_back", "reserve"):
+            return Rat(Poly.const(0))
+        return None
+    for state in enum:
+        ex = SymExec(cf, DC, call_model=model, symbolic_loops={"*"})
+        st = State()
+        for p_ in C.fparams(fn):
+            nm = p_.get("name")
+            st.env[nm] = Ptr(nm, 0) if ("*" in C.qtype(p_) or "[" in C.qtype(p_)) else st.sym(nm)
+        if ivar:
+            st.env[ivar] = Rat(Poly.var(ivar))
+        st.env[("framesecondary", "j")] = Rat(Poly.var(state))
+        del seen_ptrs[:]
+        try:
+            outs = ex.run(C.kids(body[0]), st)
+        except CUnsup as e:
+            out["error"] = "not evaluable: %s" % e
+            return out
+        wr = []
+        for o in outs:
+            for k_, v_ in o.env.items():
+                if isinstance(k_, tuple) and k_[0] == "secondary":
+                    wr.append((k_[1], v_, o))
+        if len(wr) != 1:
+            out["codes"][state] = None
+            out["offsets"][state] = None
+            continue
+        off, val, o = wr[0]
+        c_ = val.const_value() if isinstance(val, Rat) else None
+        out["codes"][state] = chr(int(c_)) if c_ is not None and c_.denominator == 1 and 0 <= c_ < 256 else None
+        out["offsets"][state] = (ex.__dict__.get("offvals") or {}).get(off, off)
+        out["frame_ptrs"] = list(seen_ptrs)
+    return out
